@@ -430,8 +430,9 @@ def prebuild(ctx):
     c14d_part.prebuild(ctx)
     c14g_part.prebuild(ctx)
     c14l_part.prebuild(ctx)
-    from vlib import c14mm_part
+    from vlib import c14mm_part, c14_sccp
     c14mm_part.prebuild(ctx)
+    c14_sccp.prebuild(ctx)
     c14_pass.prebuild(ctx)
 
 
@@ -924,6 +925,9 @@ def run(ctx):
     from vlib import c14a_part
     total += c14a_part.part_algebraic(ctx)
     ctx.log(f"algebraic/sccp {time.time()-t:.0f}s"); t = time.time()
+    from vlib import c14_sccp
+    total += c14_sccp.part_sccp(ctx)
+    ctx.log(f"sccp whole-function validator {time.time()-t:.0f}s"); t = time.time()
     from vlib import c14d_part
     total += c14d_part.part_dom(ctx)
     ctx.log(f"dominators/ssa/dfg {time.time()-t:.0f}s"); t = time.time()
